@@ -39,9 +39,69 @@ def draw(rng, lo, hi, logu, p_end=0.25):
     return rng.uniform(lo, hi)
 
 
+def f32(x):
+    return struct.unpack('>f', struct.pack('>f', x))[0]
+
+
+WEIGHT_CLASSES = ('defaults', 'random-normalised', 'float32', 'decimals-7', 'decimals-6', 'decimals-5', 'sum-near-one', 'gross', 'single')
+
+
+def draw_weights(rng, defaults, cls=None):
+    """A set of weights in [0,1] that the code is expected to normalise by their sum (Sacramento uh1..uh5; usable for any
+    model with such weights).  Classes: the documented defaults; a random set normalised in double precision; either of
+    them as it comes out of single-precision storage or of a file with 7, 6 or 5 decimals (sum off one by 1e-8 .. 1e-5);
+    a normalised set scaled so that its sum is 1 +- 1e-9 .. 1e-5; grossly un-normalised; one ordinate only.  -> (weights, class)"""
+    n = len(defaults)
+    cls = cls or rng.choice(WEIGHT_CLASSES)
+    if cls == 'defaults':
+        return list(defaults), cls
+    if cls == 'gross':
+        w = [rng.uniform(0.0, 1.0) if rng.random() < 0.8 else 0.0 for _ in range(n)]
+        if sum(w) <= 0.0:
+            w[0] = rng.uniform(0.1, 1.0)
+        return w, cls
+    if cls == 'single':
+        w = [0.0] * n
+        w[rng.randrange(n)] = rng.choice([1.0, rng.uniform(0.05, 1.0)])
+        return w, cls
+    if rng.random() < 0.4:
+        base = list(defaults)
+    else:
+        raw = sorted((rng.random() ** 2 for _ in range(n)), reverse=True)
+        t = sum(raw)
+        base = [v / t for v in raw]
+    if cls == 'random-normalised':
+        w = base
+    elif cls == 'float32':
+        w = [f32(v) for v in base]
+    elif cls.startswith('decimals-'):
+        d = int(cls.split('-')[1])
+        w = [round(v, d) for v in base]
+        if base == list(defaults):            # the defaults have two decimals: use a neighbouring set that rounding does change
+            w = [round(v * (1.0 + rng.uniform(-3e-3, 3e-3)), d) for v in base]
+            t = sum(w)
+            w = [round(v / t, d) for v in w]
+    else:                                     # sum-near-one
+        k = 1.0 + rng.choice([-1.0, 1.0]) * 10.0 ** rng.uniform(-9.0, -5.0)
+        w = [v * k for v in base]
+    w = [min(1.0, max(0.0, v)) for v in w]
+    if sum(w) <= 0.0:
+        w[0] = 1.0
+    return w, cls
+
+
+SAC_UH_DEFAULTS = [0.8, 0.1, 0.05, 0.03, 0.02]
+
+
 def draw_params(rng, model, p_end=0.25):
     ps = [draw(rng, lo, hi, lg, p_end) for (lo, hi, lg) in RANGES[model]]
     if model == 'Sacramento':
+        # unit-hydrograph proportions: every storage/normalisation class (see draw_weights)
+        ps[17:22] = draw_weights(rng, SAC_UH_DEFAULTS)[0]
+        # closed-budget class: no side flow, no channel loss (the water balance is then an identity up to the
+        # water still in the unit-hydrograph buffer, so the budget oracle is tight)
+        if rng.random() < 0.25:
+            ps[11] = ps[12] = 0.0
         # pctim + adimp <= 1 ; at least one unit-hydrograph ordinate positive
         if ps[13] + ps[14] > 1.0:
             s = ps[13] + ps[14]
@@ -238,6 +298,21 @@ def oracle_sacramento(ps, st0, rain, pet, outs, st1):
     for k, (v, cap) in enumerate(zip(st1, caps)):
         if v < -tol or v > cap + tol:
             return ('bounds', 'store %d = %r outside [0, %r]' % (k, v, cap))
+    # whole-run budget with the land stores of the state vector (C10_sacramento_budget with the non-negative content of the
+    # unit-hydrograph buffer dropped from the left; the buffer of a run always starts empty, also on a hot start):
+    #   sum(runoff + actualET) + W(final states) <= sum(rain) + W(initial states),
+    # W = (1-pctim-adimp)*(uztwc+uzfwc+lztwc+(lzfpc+lzfsc)*(1+side)) + adimp*adimc.  The only slack is what the model
+    # really loses (side flow, ssout) and what is still in the buffer, so the tolerance is set by round-off alone:
+    # 1e-12 relative to the water that went through the run (measured on the unchanged code: < 3e-15).
+    f = 1.0 - pctim - adimp
+    W = lambda st: f * (st[0] + st[1] + st[2] + (st[3] + st[4]) * (1.0 + side)) + adimp * st[5]
+    if len(rain):
+        lhs = sum(runoff) + sum(aet) + W(st1)
+        rhs = sum(rain) + W(st0)
+        tight = 1e-12 * (1.0 + sum(rain) + abs(W(st0)))
+        if lhs > rhs + tight:
+            return ('balance', 'runoff %r + actualET %r + final land stores %r exceed rain %r + initial land stores %r by %r (tolerance %r)'
+                    % (sum(runoff), sum(aet), W(st1), sum(rain), W(st0), lhs - rhs, tight))
     # zero initial storage only (the model's own InitialiseStates): hot starts drop the UH buffer
     if all(v == 0.0 for v in st0):
         m = _cum_ok([a + b for a, b in zip(runoff, aet)], rain, 0.0, tol)
